@@ -50,6 +50,10 @@ def controller_fn(writes, fired):
 
 def std_case(rng, profile):
     spec = gen_spec(rng, profile)
+    if "reactive_p" in profile and rng.random() < profile["reactive_p"]:
+        # state-triggered weather faults (traj.make_reactive_hook): placed by what the model is doing, not by the calendar
+        from ..traj import gen_reactive
+        spec["reactive"] = gen_reactive(rng, triggers=profile.get("reactive_triggers"))
     case = {"spec": spec, "partition": rng.choice(profile.get("partitions", ["ones", "small", "medium", "mixed", "large", "all"])),
             "part_seed": rng.getrandbits(32), "controller": gen_controller(rng, spec),
             "first_call_init": rng.random() < 0.3}
@@ -77,3 +81,127 @@ def std_run(case, monitors, probes=("days",), nontrivial_fn=None, extra_faults=N
     if res["status"] == "ok" and nontrivial_fn is not None and nontrivial_fn(res):
         res["nontrivial"] = [config_sig(spec)]
     return finish(res)
+
+
+def reclamp_cn(spec):
+    """after a regime replaced the soil: keep the adjusted curve number of both managements inside the documented range
+    (the percentage was drawn for the curve number of the soil that was replaced)"""
+    import math
+    from ..domain import SOIL_CN
+    soil = spec["soil"]
+    cn = (soil.get("kwargs") or {}).get("cn") or (61 if soil["type"] == "custom" else SOIL_CN[soil["type"]])
+    hi = math.floor((100.0 / cn - 1) * 100)
+    lo = math.ceil((20.0 / cn - 1) * 100)
+    for key in ("field", "fallow_field"):
+        f = spec.get(key)
+        if f and f.get("curve_number_adj") and "curve_number_adj_pct" in f:
+            f["curve_number_adj_pct"] = max(lo, min(hi, f["curve_number_adj_pct"]))
+
+
+BASIN_PROFILE = {"calendar_crop_p": 0.7, "n_seasons": [2, 2, 3], "off_season_p": 1.0, "gw": 0.0, "custom_soil_p": 0.0,
+                 "soils": ["Clay", "SiltClay", "SandyClay", "Paddy", "ClayLoam"], "sensible_planting_p": 0.95, "end_kinds": ["after"]}
+
+
+def basin_regime(rng, case, harvest=None):
+    """Flooded-basin regime shared by the water checks: high bunds kept ponded by constant-depth / interval irrigation in
+    the season, lower or no bunds in the fallow period, off-season simulated, slowly draining soils; around each harvest
+    either no water at all ("dry": the pond meets the switch of management undisturbed) or rain harder than the surface
+    can take on the days around it ("wet")."""
+    from ..gen import season_spans
+    spec = case["spec"]
+    spec["off_season"] = True
+    r = rng.random()
+    if r < 0.5:
+        # puddled uniform clay: intake of a few mm/day only, so that the basin really stays flooded
+        wp = round(rng.uniform(0.25, 0.33), 3)
+        fc = round(wp + rng.uniform(0.1, 0.15), 3)
+        spec["soil"] = {"type": "custom", "kwargs": {"dz": [0.1] * 12, "cn": 77, "rew": 10},
+                        "layers": [["hyd", 3.2, wp, fc, round(fc + rng.uniform(0.03, 0.08), 3), rng.choice([2, 5, 10]), 100]]}
+        spec["iwc"] = {"wc_type": "Prop", "method": "Layer", "depth_layer": [1], "value": [rng.choice(["FC", "SAT"])]}
+    elif r < 0.8:
+        spec["soil"] = {"type": "Paddy", "kwargs": {}, "layers": None}
+        spec["iwc"] = {"wc_type": "Prop", "method": "Layer", "depth_layer": [1, 2], "value": [rng.choice(["FC", "SAT"]), rng.choice(["FC", "SAT"])]}
+    elif spec["soil"]["type"] not in ("Clay", "SiltClay", "SandyClay", "Paddy"):
+        spec["soil"] = {"type": rng.choice(["Clay", "SiltClay", "SandyClay", "Clay"]), "kwargs": {}, "layers": None}
+        spec["iwc"] = {"wc_type": "Prop", "method": "Layer", "depth_layer": [1], "value": [rng.choice(["FC", "SAT"])]}
+    spec["gw"] = None
+    spec["field"] = {"bunds": True, "z_bund": rng.choice([0.15, 0.2, 0.3]), "bund_water": rng.choice([0, 50, 100])}
+    spec["fallow_field"] = rng.choice([{"bunds": True, "z_bund": rng.choice([0.02, 0.05, 0.1])}, {"bunds": True, "z_bund": 0.05, "bund_water": 20},
+                                       None, None, {"bunds": False, "z_bund": 0.1}])
+    m = rng.choice([5, 5, 5, 2, 3, 3])
+    if m == 3:
+        sched = []
+        for p in planting_dates(spec):
+            t = 0
+            while t < 400:
+                sched.append([(p + _dt.timedelta(days=t)).strftime("%Y/%m/%d"), rng.choice([30, 40, 60])])
+                t += rng.choice([2, 3, 4])
+        seen = set()
+        sched = [s for s in sched if not (s[0] in seen or seen.add(s[0])) and spec["start"] <= s[0] <= spec["end"]]
+        spec["irr"] = {"method": 3, "kwargs": {"AppEff": rng.choice([100, 90, 70]), "MaxIrr": 80}, "schedule": sched}
+    else:
+        spec["irr"] = {"method": m, "kwargs": ({"depth": rng.choice([20, 30, 40]), "MaxIrr": 40} if m == 5 else {"IrrInterval": 3, "MaxIrr": 60}), "schedule": None}
+        if rng.random() < 0.4:
+            spec["irr"]["kwargs"]["AppEff"] = rng.choice([90, 70, 50])
+    case["controller"] = None
+    reclamp_cn(spec)
+    w = spec["weather"]
+    off = (parse_date(spec["start"]) - parse_date(w["start"])).days
+    harvest = harvest or rng.choice(["dry", "wet", "wet"])
+    w["events"] = [e for e in w.get("events", []) if e["kind"] not in ("storm", "wet_spell")]
+    for a, b in season_spans(spec):
+        if harvest == "dry":
+            w["events"].append({"kind": "drought", "day": off + b - 20, "len": 60, "mag": 0.0})
+        else:
+            for d in range(b - 2, b + 4):
+                if rng.random() < 0.5:
+                    w["events"].append({"kind": "storm", "day": off + d, "len": 1, "mag": rng.choice([20.0, 40.0, 60.0, 120.0])})
+    if harvest == "wet":
+        # and, wherever the season really ends (crops drown in a basin), rain on the very day the other management takes over
+        spec["reactive"] = [{"when": rng.choice(["season_end_ponded", "season_end_ponded", "season_end", "season_start"]), "action": "storm",
+                             "mag": rng.choice([12.0, 25.0, 40.0, 60.0, 120.0]), "len": 1, "delay": rng.choice([0, 0, 0, 1]), "max_fires": 4}]
+    return case
+
+
+HARDPAN_PROFILE = {"custom_soil_p": 0.0, "gw": 0.0, "archetypes": ["temperate", "tropical", "warm", "continental"], "station_p": 0.3,
+                   "event_kinds": ["storm", "storm", "wet_spell", "wet_spell", "drought"], "events_per_year": 4.0, "off_season_p": 0.7,
+                   "iwc_kinds": ["Prop"], "sat_start_p": 0.0}
+
+
+def hardpan_regime(rng, case):
+    """Permeable top soil over a nearly impermeable, porous pan (plough pan, puddled sub-soil, clay pan): the sub-layer's own
+    drainage ability tau*(th_s - th_fc)*dz exceeds its conductivity, water perches above it, backs up and is redistributed
+    upwards.  Frequent rain, and light rain again the day after the top soil was saturated."""
+    spec = case["spec"]
+    from ..domain import CROP_INFO
+    dz = list(rng.choice([[0.1] * 12, [0.15] * 8, [0.2] * 6, [0.1, 0.1, 0.1, 0.15, 0.15, 0.2, 0.2, 0.2], [0.05] * 4 + [0.1] * 10]))
+    # deep enough for the crop as given (no deepening: the deepening loop thickens the listed compartments, which moves the
+    # layer boundaries off the compartment boundaries), layers cut on compartment boundaries
+    zmax = CROP_INFO[spec["crop"]["name"]]["Zmax"]
+    while round(sum(dz), 2) < zmax + 0.1:
+        dz.append(0.2)
+    k1 = rng.choice([1, 2, 3, 4])
+    top = round(sum(dz[:k1]), 2)
+    k2 = rng.choice([1, 2, 3, None])
+    if k2 is not None and k1 + k2 >= len(dz):
+        k2 = None
+    pan_thick = 3.0 + sum(dz) if k2 is None else round(sum(dz[k1:k1 + k2]), 2)
+    wp1 = round(rng.uniform(0.05, 0.15), 3)
+    fc1 = round(wp1 + rng.uniform(0.08, 0.15), 3)
+    layers = [["hyd", top, wp1, fc1, round(fc1 + rng.uniform(0.1, 0.2), 3), rng.choice([225, 500, 1200]), 100]]
+    wp2 = round(rng.uniform(0.15, 0.3), 3)
+    fc2 = round(wp2 + rng.uniform(0.08, 0.14), 3)
+    pan = ["hyd", pan_thick, wp2, fc2, round(fc2 + rng.uniform(0.1, 0.2), 3), rng.choice([0.5, 1, 1, 2, 2, 5]), rng.choice([100, 100, 50])]
+    layers.append(pan)
+    if k2 is not None:
+        wp3 = round(rng.uniform(0.08, 0.2), 3)
+        fc3 = round(wp3 + rng.uniform(0.08, 0.15), 3)
+        layers.append(["hyd", 3.0 + round(sum(dz), 2), wp3, fc3, round(fc3 + rng.uniform(0.05, 0.15), 3), rng.choice([35, 100, 500]), 100])
+    spec["soil"] = {"type": "custom", "kwargs": {"dz": dz, "cn": rng.choice([46, 61, 77]), "rew": 9}, "layers": layers}
+    spec["iwc"] = {"wc_type": "Prop", "method": "Layer", "depth_layer": list(range(1, len(layers) + 1)),
+                   "value": [rng.choice(["FC", "FC", "WP", "SAT"]) for _ in layers]}
+    spec["gw"] = None
+    reclamp_cn(spec)
+    spec["reactive"] = [{"when": "top_soil_saturated", "action": "storm", "mag": rng.choice([1.0, 2.0, 5.0, 12.0]), "len": rng.choice([1, 2]),
+                         "delay": rng.choice([0, 1, 1]), "max_fires": 8}]
+    return case
